@@ -490,6 +490,23 @@ func generate() {
 					do("pwalk 2 desc cur", "after-post", true)
 					// a restart (every cached total zeroed), then the next post: the posted board and the log
 					// boards the post is copied to are re-counted, not bumped from 0
+					// first access after a restart (cold total) through every by-name entry point
+					for _, how := range []string{"edit", "cross"} {
+						for _, pick := range []int{0, len(cur) - 1} {
+							if pick < 0 || pick >= len(cur) {
+								continue
+							}
+							nm := cur[pick]
+							if len(nm) == 0 {
+								nm = []byte{0}
+							}
+							do("reload", "", true)
+							do("nlookup "+how+" "+hx.Hex(nm), "", true)
+							do("nlookup "+how+" "+hx.Hex(absentName(bigBase+7)), "", true)
+						}
+					}
+					do("reload", "", true)
+					do("findlast asc", cl, true)
 					do("reload", "", true)
 					do("post", cl+":after-reload", true)
 					do("findlast desc", cl, true)
